@@ -1043,7 +1043,9 @@ class PyFlow:
                     continue
                 for q2, i in self.ev(e.slice, q, depth, no_effect=no_effect):
                     a = single_atom(b)
-                    if a is not None and a[0] == "tuple" and i.const_value() is not None and 0 <= i.const_value() < len(a[1]):
+                    if a is not None and a[0] == "dict" and any(k_ == i for k_ in a[1]):
+                        out.append((q2, a[2][[k_ == i for k_ in a[1]].index(True)]))
+                    elif a is not None and a[0] == "tuple" and i.const_value() is not None and 0 <= i.const_value() < len(a[1]):
                         out.append((q2, a[1][i.const_value()]))
                     else:
                         base = a[1] if a is not None and a[0] == "var" else b
@@ -1051,6 +1053,37 @@ class PyFlow:
             return out
         if isinstance(e, ast.Call):
             return self.call(e, p, depth, stmt_pos, no_effect)
+        if isinstance(e, (ast.GeneratorExp, ast.ListComp)) and len(e.generators) == 1 and e.generators[0].ifs and not e.generators[0].is_async:
+            # a filtered comprehension over a literal table: unrolled row by row, the filter forks the path
+            g = e.generators[0]
+            heads = self.ev(g.iter, p, depth, no_effect=no_effect)
+            if all(self._rows(it) is not None for _, it in heads):
+                out = []
+                for q, it in heads:
+                    acc2: List[Tuple[Path, List[Poly]]] = [(q, [])]
+                    for row in self._rows(it) or []:
+                        nxt2: List[Tuple[Path, List[Poly]]] = []
+                        for q2, vals in acc2:
+                            self._bind_loop_target(g.target, row, q2)
+                            live2 = [(q2, True)]
+                            for c_ in g.ifs:
+                                nl = []
+                                for q3, ok_ in live2:
+                                    if not ok_:
+                                        nl.append((q3, False))
+                                        continue
+                                    nl.extend(self.cond(c_, q3, depth))
+                                live2 = nl
+                            for q3, ok_ in live2:
+                                if ok_:
+                                    for q4, v in self.ev(e.elt, q3, depth, no_effect=no_effect):
+                                        nxt2.append((q4, vals + [v]))
+                                else:
+                                    nxt2.append((q3, vals))
+                        acc2 = nxt2
+                    for q2, vals in acc2:
+                        out.append((q2, Poly.atom(("tuple", tuple(vals)))))
+                return out
         if isinstance(e, (ast.GeneratorExp, ast.ListComp)) and len(e.generators) == 1 and not e.generators[0].ifs and not e.generators[0].is_async:
             g = e.generators[0]
             out = []
@@ -1295,6 +1328,20 @@ class PyFlow:
             return [(q, trunc8(v)) for q, v in self.ev(e.args[0], p, depth, no_effect=no_effect)]
         if fname in ("cast", "cast_or_raise") and len(e.args) == 2:
             return self.ev(e.args[1], p, depth, no_effect=no_effect)
+        if fname == "next" and isinstance(f, ast.Name) and len(e.args) == 2 and "next" not in self.funcs:
+            outn = []
+            handled_n = True
+            for q, seq in self.ev(e.args[0], p, depth, no_effect=no_effect):
+                sa_ = single_atom(seq)
+                if sa_ is None or sa_[0] != "tuple":
+                    handled_n = False
+                    break
+                if sa_[1]:
+                    outn.append((q, sa_[1][0]))
+                else:
+                    outn.extend(self.ev(e.args[1], q, depth, no_effect=no_effect))
+            if handled_n:
+                return outn
         if fname == "str" and isinstance(f, ast.Name) and len(e.args) == 1:
             return [(q, tpl([v])) for q, v in self.ev(e.args[0], p, depth, no_effect=no_effect)]
         if fname in ("__preinc__", "__postinc__") and isinstance(f, ast.Name) and len(e.args) == 2 and isinstance(e.args[0], ast.Constant):
@@ -1377,6 +1424,10 @@ class PyFlow:
                 alias_name, alias_recv = fa[1].rsplit(".", 1)[1], V(fa[1].rsplit(".", 1)[0])
             elif fa is not None and fa[0] == "attr" and isinstance(fa[2], str):
                 alias_name, alias_recv = fa[2], fa[1]
+        callee_val: Optional[Poly] = None
+        if alias_name is None and isinstance(f, ast.Name) and f.id in p.env and f.id not in self.funcs and f.id not in p.funcs:
+            # the function / class called is itself a computed value (class_ = pick(...); class_(...))
+            callee_val = p.env[f.id]
         if alias_name is not None:
             recv_paths = [(p, alias_recv)]
         for q, recv in recv_paths:
@@ -1393,6 +1444,9 @@ class PyFlow:
                     else:
                         kws["**"] = sv
                 name = alias_name or fname or src_of(f)
+                if callee_val is not None:
+                    kws = dict(kws)
+                    kws["__callee__"] = callee_val
                 kwa = [Poly.atom(("kw", k, v)) for k, v in sorted(kws.items())]
                 if recv is not None:
                     val = Poly.atom(("mcall", name, tuple([recv] + pos + kwa)))
